@@ -36,10 +36,23 @@ Definition only_waits_on (f b : string) : bool :=
   && Nat.eqb (count is_bucket_call (events_of f)) 1
   && existsb (is_read b) (events_of f) && negb (existsb (is_write b) (events_of f)).
 
-Lemma rxWait_is_Bucket_Wait : only_waits_on "multiplex.LimitedValve.rxWait" "LimitedValve.rxtb" = true.
+(* the same thing spelled out, as the library's Wait itself is written: ONE Take followed by ONE time.Sleep
+   and nothing else (that the sleep is for the duration Take returned is the correspondence's business:
+   release times are compared with the model to the nanosecond) *)
+Definition is_take_call (e : ev) : bool := is_any_call e && ends_with ".Take" (snd e).
+Definition takes_then_sleeps (f b : string) : bool :=
+  Nat.eqb (count is_any_call (events_of f)) 2 && Nat.eqb (count is_bucket_call (events_of f)) 1
+  && match filter is_any_call (events_of f) with
+     | [e1; e2] => is_take_call e1 && is_bucket_call e1 && is_call "time.Sleep" e2
+     | _ => false
+     end
+  && existsb (is_read b) (events_of f) && negb (existsb (is_write b) (events_of f)).
+Definition waits_for_tokens (f b : string) : bool := only_waits_on f b || takes_then_sleeps f b.
+
+Lemma rxWait_is_Bucket_Wait : waits_for_tokens "multiplex.LimitedValve.rxWait" "LimitedValve.rxtb" = true.
 Proof. vm_compute. reflexivity. Qed.
 
-Lemma txWait_is_Bucket_Wait : only_waits_on "multiplex.LimitedValve.txWait" "LimitedValve.txtb" = true.
+Lemma txWait_is_Bucket_Wait : waits_for_tokens "multiplex.LimitedValve.txWait" "LimitedValve.txtb" = true.
 Proof. vm_compute. reflexivity. Qed.
 
 (* nothing else of the bucket API anywhere in the scanned packages: the two constructors in MakeValve
@@ -51,7 +64,7 @@ Definition bucket_calls : list (string * string) :=
 Definition allowed_bucket_call (fc : string * string) : bool :=
   (seqb (fst fc) "multiplex.MakeValve" && seqb (snd fc) "github.com/juju/ratelimit.NewBucketWithRate")
   || ((seqb (fst fc) "multiplex.LimitedValve.rxWait" || seqb (fst fc) "multiplex.LimitedValve.txWait")
-      && ends_with ".Wait" (snd fc)).
+      && (ends_with ".Wait" (snd fc) || ends_with ".Take" (snd fc))).
 
 Lemma bucket_api_only_constructed_and_waited_on :
   forallb allowed_bucket_call bucket_calls = true /\ length bucket_calls = 4.
